@@ -4,16 +4,21 @@ import json, os, sys
 sys.path.insert(0, os.path.dirname(os.path.abspath(__file__)))
 import props
 
-LEVEL = {
- "C19": ("bounded symbolic model checking of the real AVL code: one Insert/Delete (and live iteration around it, incl. two mutations between Next calls) from every AVL shape up to the height bound with symbolic keys; every branch feasibility and obligation decided by z3",
-         "trusted: symgo's SSA semantics (self-tested bit for bit against the native build), z3; keys as mathematical integers (int64 boundary excluded)"),
- "C10": ("bounded symbolic model checking of the real matrix code: header arithmetic (index/Slice/T) with fully symbolic shapes as inductive steps decided in nonlinear integer arithmetic (z3 5.1), and 18 operation groups on Slice/T view compositions of 3x3 parents with symbolic elements against the definitional model, obligations decided by cvc5/z3; confirmed genuine defects are listed as known findings",
-         "trusted: symgo, z3/cvc5, extents <= 2^20 for the Int encoding; parents up to 3x3 (3x4 thorough), compositions of depth <= 2 (3 thorough)"),
- "C09": ("bounded symbolic differential check of every Xyz/XYZ scalar pair of Real64/Real32 on fully symbolic jets (any float), all alias patterns; equality of every result slot decided by cvc5 (UF-first, then bit-precise)",
-         "trusted: symgo, cvc5; libm/special functions uninterpreted by name; containers not yet covered by this check"),
- "C08": ("bounded symbolic differential check: aliased receiver vs fresh receiver for every Real64/Real32 scalar operation (generic and CONCRETE), all alias patterns and operand structures, fully symbolic jets; decided by cvc5 (UF-first, then bit-precise)",
-         "trusted: symgo, cvc5; libm/special functions uninterpreted by name; containers not yet covered by this check"),
+MODE_TEXT = {
+ "fp": "floats bit-precise (cvc5 FP theory, UF abstraction first), ints as mathematical integers unless stated",
+ "real": "floats read as reals (z3 4.8.12 / z3 5.1.0 raced, fraction lifting, exp-homomorphism), so the claim is about the formulas the code evaluates on every branch, not about rounding",
 }
+
+def level(pid, spec):
+    b = spec.get("bounds", {})
+    text = ("bounded symbolic model checking of the real code (symbolic execution of its go/ssa form, every branch feasibility and "
+            "proof obligation decided by an SMT solver, counterexamples replayed against the native build). Quick tier: "
+            + b.get("quick", "") + ". Thorough tier: " + b.get("thorough", "same with larger bounds") + ".")
+    note = ("trusted: symgo's SSA semantics (self-tested bit for bit against the native build on derived concrete inputs), z3/cvc5; "
+            + MODE_TEXT.get(spec.get("mode", "fp"), "") + ". Assumptions: " + "; ".join(spec.get("assumptions", []) or ["none beyond the bounds"])
+            + ". Outside the claim: " + (spec.get("outside") or "everything beyond the stated bounds") + ".")
+    return text, note
+
 TECH = "symbolic execution of go/ssa (own executor symgo) + SMT (z3 4.8.12 / z3 5.1.0 / cvc5 1.0), counterexamples replayed natively"
 
 NOT_APPLICABLE = {
@@ -23,7 +28,7 @@ NOT_APPLICABLE = {
 def main():
     checks = []
     for pid in sorted(props.PROPS):
-        text, note = LEVEL.get(pid, ("bounded symbolic model checking of the real code, obligations decided by SMT solvers", "trusted: symgo, z3/cvc5"))
+        text, note = level(pid, props.PROPS[pid])
         checks.append({
             "property_id": pid,
             "quick_cmd": f"./check {pid} --tier quick",
@@ -50,7 +55,7 @@ def main():
                      "kind_free_text": "path-forking symbolic executor over go/ssa of /repo's current source; obligations and branch feasibility decided by z3/cvc5; native replay of every counterexample"}],
         "checks": checks,
         "not_applicable": na,
-        "notes": "see DESIGN.md; known_findings.json lists genuine defects of the unchanged tree that the checks re-confirm on every run",
+        "notes": "see DESIGN.md section 11 (as built); known_findings.json lists the genuine defects of the unchanged tree that remain (known: re-confirmed natively on every run, printed as KNOWN-FINDING) and those repaired by fix: commits in /repo (fixed: suppress nothing)",
     }
     json.dump(m, open(os.path.join(os.path.dirname(os.path.abspath(__file__)), "MANIFEST.json"), "w"), indent=1)
 
